@@ -72,7 +72,7 @@ func (fr *Frame) afterCall(st *State, key string, c *ssa.CallCommon, res []Term,
 	}
 	for _, name := range names {
 		for _, cl := range fr.spec.AfterCalls[name] {
-			env := &Env{fc: fc, fr: fr, st: st, old: fr.top().entry, vars: map[string]Term{}, pkgName: fr.fn.Pkg.Pkg.Name()}
+			env := &Env{fc: fc, fr: fr, st: st, old: fr.top().entry, vars: map[string]Term{}, pkgName: fr.fn.Pkg.Pkg.Name(), at: fr.curBlock}
 			if len(res) > 0 {
 				r := res[0]
 				if r.T == nil {
@@ -179,7 +179,7 @@ func (fr *Frame) atCall(st *State, key string, c *ssa.CallCommon, pos token.Pos)
 			}
 		}
 		for k, cl := range cls {
-			env := &Env{fc: fc, fr: fr, st: st, old: fr.top().entry, vars: map[string]Term{}, pkgName: fr.fn.Pkg.Pkg.Name()}
+			env := &Env{fc: fc, fr: fr, st: st, old: fr.top().entry, vars: map[string]Term{}, pkgName: fr.fn.Pkg.Pkg.Name(), at: fr.curBlock}
 			t, err := fc.evalGoal(env, cl)
 			if err != nil {
 				fc.unsupp(pos, "atcall %s: %v", name, err)
